@@ -492,6 +492,9 @@ func (c *simClient) Update(ctx context.Context, obj client.Object, opts ...clien
 		return apierrors.NewNotFound(schema.GroupResource{Resource: strings.ToLower(kind)}, obj.GetName())
 	}
 	c.k.run.trace("client update %s %s", kind, objKey(obj))
+	if sec, ok := obj.(*api.Secret); ok {
+		c.k.run.acmeSecretWritten(sec)
+	}
 	c.k.Apply(kind, objKey(obj), obj)
 	return nil
 }
@@ -511,6 +514,9 @@ func (c *simClient) Create(ctx context.Context, obj client.Object, opts ...clien
 		obj.SetCreationTimestamp(metav1.NewTime(time.Now()))
 	}
 	c.k.run.trace("client create %s %s", kind, objKey(obj))
+	if sec, ok := obj.(*api.Secret); ok {
+		c.k.run.acmeSecretWritten(sec)
+	}
 	c.k.Apply(kind, objKey(obj), obj)
 	return nil
 }
